@@ -234,11 +234,33 @@ class SimTerm:
         return [], [], []
 
     # -- harness-side helpers ----------------------------------------------------------
+    def idle(self, dt: float):
+        """Nobody touches the terminal for `dt` seconds (virtual): replies that become due arrive."""
+        self._handle_requests()
+        self.now += dt
+        if self._deliver_due(self.now):
+            self._await_slave()
+
+    def _await_slave(self):
+        """Data written to the pty master reaches the slave's input queue through a kernel worker, i.e. a moment
+        later in real time; wait until it is there (seen in non-canonical mode; attributes put back unchanged)."""
+        fd = U._tty_fd
+        old = termios.tcgetattr(fd)
+        new = termios.tcgetattr(fd)
+        new[3] &= ~termios.ICANON
+        new[6][termios.VMIN] = 0
+        new[6][termios.VTIME] = 0
+        termios.tcsetattr(fd, termios.TCSANOW, new)
+        try:
+            _select.select([fd], [], [], 2.0)
+        finally:
+            termios.tcsetattr(fd, termios.TCSANOW, old)
+
     def flush_all(self):
         """Delivers every reply still scheduled (time passes as needed)."""
         self._handle_requests()
-        if self.pending:
-            self._deliver_due(self.pending[-1][0])
+        if self.pending and self._deliver_due(self.pending[-1][0]):
+            self._await_slave()
 
     def unread_bytes(self) -> bytes:
         """Bytes sitting unread on the slave side (read in raw mode, attributes restored)."""
